@@ -88,19 +88,19 @@ _p("C09", probes_quick=["store_c09"],
    technique="Verus postcondition in place on the real crate (FutureMergeResponse::get) + bounded probe",
    assumptions=V,
    not_covered=["store map laws over operation sequences (bounded probe only)", "lookup / find_usable / merge execution in worker threads"])
-_p("C11", probes_thorough=["store_c09", "track_c11"],
+_p("C11", probes_quick=["store_c09"], probes_thorough=["track_c11"],
    level_text=PROOF_TEXT + "Decides C11 for Track::add_observation and Track::merge for EVERY implementation of the user callbacks and every failing invocation: the callbacks carry no contract at all, so the proof quantifies over all fault positions.",
    level_note="Verbatim extract of update_attributes/add_observation/merge under shim traits (TA -> Self); two iterator expressions of merge are assumed helper calls; HashMap::get_mut assumed; ChangeNotifier::send given a ghost log. NOT covered deductively: merge_owned re-adding the source (bounded probe store_c09).",
    technique="Verus postconditions + loop invariant on verbatim extract; replay probe enumerates fault positions on the real code",
    assumptions=V,
    not_covered=["TrackStore::merge_owned / merge_external atomicity (worker thread): bounded probe only"])
-_p("C12", probes_quick=["visual_voting"],
+_p("C12", probes_quick=["visual_voting", "tracker_kinds"],
    level_text=PROOF_TEXT + "Decides the per-pair clauses of C12 for all option combinations: feature usable iff all three thresholds at-or-above; appearance distance only for long-enough tracks and within threshold; metric() composes (positional, appearance) truthfully; voting type recorded/merged/reported truthfully.",
    level_note="NOT covered: vote counting, greatest weight wins, loser never gets the contested track, positional fallback among remaining tracks (BestFitVoting / VisualVoting::winners: HashMap + closures + Hungarian).",
    technique="Kani proof harnesses with recording stubs on the real VisualMetric methods",
    assumptions=K,
    not_covered=["voting: counting, weights, contested tracks, fallback order (VisualVoting::winners, BestFitVoting)"])
-_p("C13", probes_thorough=["sort_history"],
+_p("C13", probes_quick=["tracker_kinds"], probes_thorough=["sort_history"],
    level_text=PROOF_TEXT + "Decides the history clauses of C13 for all history lengths and track lifetimes (sliding window of the most recent min(length, h) entries in arrival order, newest last) and the record echo; feature usability thresholds via C12's obligation.",
    level_note="SORT history in place on the real crate; VisualSORT history via verbatim extract (struct with private fields of another module is opaque to Verus in place). Gallery clauses: see evidence (extract with assumed statement wrappers if present, else not covered).",
    technique="Verus postconditions in place and on verbatim extract; Kani harness for the record echo",
@@ -143,7 +143,7 @@ _p("C14", level="other", engine="probe (bounded stand-in)", probes_quick=["nms_c
    technique="bounded check of the function's postcondition on the real code (function outside both verifiers' subsets)",
    explanation="every deciding obligation is a bounded stand-in: the postcondition of nms() evaluated exhaustively on short lists over a box alphabet and on pseudo-random longer lists",
    not_covered=["lists longer than 14 boxes; boxes outside the alphabet"])
-_p("C15", level="other", engine="probe (bounded stand-in)", probes_quick=["own_areas_c15"],
+_p("C15", level="other", engine="probe (bounded stand-in)", probes_quick=["own_areas_c15", "tracker_kinds"],
    level_text=BOUNDED_TEXT + "Decides the contract of exclusively_owned_areas + normalized shares - share in [0,1], equal to the uncovered fraction (exact cell counting for integer axis-aligned boxes, point sampling for rotated ones), order independent, completes without failing - on the stated sets of 1..=6 boxes.",
    level_note="The function is geo::BooleanOps::difference inside a rayon par_iter plus unsigned_area: no contract on Similari code is within reach of Kani (threads, f64 sweep-line) or Verus (external crate, floats). KNOWN FINDING D8: geo 0.27 panics on right-angle rotations with near-collinear edges.",
    technique="bounded check of the function's postcondition on the real code (external polygon-clipping library)",
